@@ -726,7 +726,7 @@ def degenerate_probes(ctx):
     ctx.extra['degenerate_probes'] = out
     r = out['singular_4_pixels_6_free']
     if isinstance(r, str) and 'IndexError' in r and any(
-            e.get('id') == 'C04-except-branch-length' and e.get('status') == 'open' for e in common.load_known('C04')):
+            e.get('id') == 'C04-except-branch-length' for e in common.load_known('C04')):
         # reported only while the open known finding is registered (prints KNOWN-FINDING, not VIOLATION)
         ctx.fail('spec', dict(kind='except-branch', comp=[2.0, 0.5, 0.5, 1.5, 1.5, 30.0], mask=63, shape=[2, 2], errs=1.0),
                  "covar_errors " + r + " (singular Fisher matrix, 4 unmasked pixels, 6 free parameters)",
@@ -785,6 +785,88 @@ def hessian_observation(ctx):
     ctx.extra['hessian_observation'] = out
 
 
+def known_registered(fid):
+    """a probe that goes beyond the letter of the statement is judged only once its finding is registered in the
+       merged known_findings.json (open: prints KNOWN-FINDING; fixed: a regression is a VIOLATION); before that
+       its outcome is only recorded in the evidence"""
+    return any(e.get('id') == fid for e in common.load_known('C04'))
+
+
+class _Captured(Exception):
+    pass
+
+
+def optimiser_pairing_probe(ctx):
+    """what `do_lmfit` hands to lmfit as Dfun, column by column, against the variable lmfit pairs that column
+       with (lmfit's var_names = the order in which the free parameters are held by the Parameters object).
+       For a Parameters object built component by component this is the documented order; for other insertion
+       orders the columns must be permuted accordingly."""
+    import lmfit
+    fitting = fit()
+    comps = [(3.0, 4.0, 4.5, 1.6, 1.1, 20.0), (5.0, 11.0, 4.0, 1.2, 1.9, -35.0)]
+    masks = [63, 47]
+    data = np.ones((16, 9))
+    data[0, 0] = np.nan
+    mx, my = np.where(np.isfinite(data))
+    C = fitting.Cmatrix(mx, my, 1.0, 0.7, 25.0)
+    B = fitting.Bmatrix(C)
+    doc = [f'c{i}_{PARS[k]}' for i, k in free_keys(masks)]
+    lines = []
+    for b in (None, B):
+        toks = enc_comps(comps, masks) + enc_pix(mx.astype(float), my.astype(float)) + ['enone'] + \
+            (['bnone'] if b is None else ['bmat'] + [f2h(v) for v in np.asarray(b, dtype=float).ravel()])
+        lines.append(f"tlmjac 2 {len(mx)} " + " ".join(toks))
+    truths = []
+    for o in ctx.driver.batch(lines):
+        hdr, v = floats(o, 2)
+        truths.append(v.reshape(hdr))
+    out = {}
+    real_minimize = fitting.lmfit.minimize
+    for order in ORDERS:
+        for b, truth, tag in ((None, truths[0], 'plain'), (B, truths[1], 'B')):
+            cap = {}
+
+            def fake(fcn, params, kws=None, Dfun=None, **kw):
+                cap.update(params=params, kws=kws or {}, Dfun=Dfun)
+                raise _Captured()
+            p = mk_params(comps, masks, order)
+            fitting.lmfit.minimize = fake
+            try:
+                try:
+                    fitting.do_lmfit(data, p, B=b)
+                except _Captured:
+                    pass
+            finally:
+                fitting.lmfit.minimize = real_minimize
+            if 'Dfun' not in cap or cap['Dfun'] is None:
+                out[f'{order}/{tag}'] = 'no analytic Jacobian handed over'
+                continue
+            with np.errstate(all='ignore'):
+                J = np.asarray(cap['Dfun'](cap['params'], **cap['kws']), dtype=float)
+            mini = lmfit.Minimizer(lambda q: np.zeros(1), cap['params'])
+            names = list(mini.prepare_fit().var_names)
+            verdict = 'ok'
+            if J.shape != (len(mx), len(names)):
+                verdict = f'shape {J.shape} for {len(names)} variables'
+            else:
+                scale = np.max(np.abs(truth), axis=0)
+                for k, name in enumerate(names):
+                    want = truth[:, doc.index(name)]
+                    if np.max(np.abs(J[:, k] - want)) > 1e-9 * max(1.0, scale[doc.index(name)]):
+                        got = next((d for d in doc if np.max(np.abs(J[:, k] - truth[:, doc.index(d)])) <=
+                                    1e-9 * max(1.0, scale[doc.index(d)])), '?')
+                        verdict = f"column {k}, which lmfit pairs with {name}, is the derivative with respect to {got}"
+                        break
+            out[f'{order}/{tag}'] = verdict
+            ctx.count('optimiser-pairing-' + ('ok' if verdict == 'ok' else 'mispaired'))
+            if verdict != 'ok' and known_registered('C04-dfun-variable-order'):
+                ctx.fail('spec', dict(kind='optimiser-pairing', order=order, whitened=(b is not None),
+                                      comps=[list(c) for c in comps], masks=masks),
+                         f"do_lmfit hands lmfit a Jacobian whose {verdict} (Parameters inserted in '{order}' order)",
+                         dict(site='fitting.do_lmfit', what='dfun-pairing', canonical_insertion=(order in ('canonical', 'components_first'))))
+    ctx.extra['optimiser_pairing'] = out
+
+
 def run(ctx):
     common.use_repo()
     run_models(ctx, [model_from_case(c) for c in corpus_cases()], tag='corpus')
@@ -806,6 +888,7 @@ def run(ctx):
     bmatrix_contract(ctx)
     degenerate_probes(ctx)
     hessian_observation(ctx)
+    optimiser_pairing_probe(ctx)
     # implementation vs the property directly (cheap; independent of which obligation broke)
     leaf_spec_probe(ctx, 60 if ctx.quick else 600)
     seen = ctx.extra.pop('_masks_seen', set())
@@ -952,6 +1035,8 @@ def replay(ctx, rec):
         return search(ctx)
     if c.get('kind') == 'except-branch':
         return degenerate_probes(ctx)
+    if c.get('kind') == 'optimiser-pairing':
+        return optimiser_pairing_probe(ctx)
     if c.get('kind') == 'debug-slice':
         return debug_slice(ctx, [model_from_case(c)])
     m = model_from_case(c)
